@@ -57,6 +57,15 @@ def mk(fn):
             oc, _ = call(fn, c * keep1, p)
             if not (numpy.all(numpy.isfinite(oc)) and abs(oc / c - o1).max() <= 1e-9 * abs(o1).max()):
                 return bad("%s is not linear: P(c U) != c P(U) for c = %r" % (fn, c), float(abs(oc / c - o1).max()) if numpy.all(numpy.isfinite(oc)) else "non-finite", 0.0)
+        mask_f = (abs(keep1) > 0.8).astype(float) * (1 + numpy.arange(N)[:, None] / N)
+        ref_m, _ = call(fn, mask_f.astype(complex), p)
+        for dt in ("float64", "float32", "int64", "uint8", "bool"):
+            src = (mask_f > 0) if dt == "bool" else (numpy.round(mask_f * 3) if dt in ("int64", "uint8") else mask_f)
+            om, _ = call(fn, src.astype(dt), p)
+            want_m, _ = call(fn, src.astype(dt).astype(complex), p)
+            if not (numpy.iscomplexobj(om) and abs(om - want_m).max() <= 1e-5 * max(abs(want_m).max(), 1e-300)):
+                return bad("%s of a %s field (an aperture mask with flat phase) is not the propagation of the same field held as complex" % (fn, dt),
+                           "real-valued output" if not numpy.iscomplexobj(om) else float(abs(om - want_m).max() / max(abs(want_m).max(), 1e-300)), 0.0)
         if not (numpy.array_equal(U1, keep1) and numpy.array_equal(U2, keep2)):
             return bad("%s modified its input field in place" % fn)
     return chk
